@@ -1,5 +1,6 @@
 import PRV.Model.BuyerCheck
 import PRV.Model.WorkerBook
+import PRV.Gen.Wiring
 import Mathlib.Tactic.Linarith
 import Mathlib.Tactic.SplitIfs
 import Mathlib.Tactic.Push
@@ -318,6 +319,17 @@ theorem other_records_untouched (b : Book) (id w : String) (h : w ≠ id) : load
 example : reference (submits (startPurchase [("c", { last := 5, work := 9, shares := 2 })] "c") "c" [(1, 100), (1, 130)]) "c" 90 = 130 := by decide
 
 end book
+
+
+/-! ### the start-up grace period's default (regenerated from `Config.SetDefaults`) -/
+
+/-- left unset, the grace period is one and a half delivery cycles *of the configured length* -/
+theorem source_grace_default : PRV.Gen.Wiring.graceDefault =
+    ("cfg.Hashrate.ValidationTimeoutAppStart == 0", "time.Duration(1.5 * float64(cfg.Hashrate.CycleDuration))") := by decide
+
+/-- which covers a whole cycle for every cycle length (in ns, truncation included): a seller that reconnects at its next
+cycle after a validator restart is inside the grace period -/
+theorem grace_default_covers_cycle (cycle : Int) (h : 0 ≤ cycle) : cycle ≤ (3 * cycle) / 2 := by omega
 
 /-! ### non-vacuity -/
 example : getMaxGlobalError (10 * 60000000000) (5 / 100) (20 * 60000000000) skipPeriod = 4 / 5 := by
